@@ -18,6 +18,7 @@ THEOREMS = [
     'Ndn.Svs.decodeVector_entries_wf', 'Ndn.Svs.step_wfVec', 'Ndn.C18.local_wf_invariant', 'Ndn.C18.reachable_wf',
     'Ndn.C18.reachable_step', 'Ndn.C18.vector_roundtrip_reachable', 'Ndn.C18.publish_emits_decodable_reachable',
     'Ndn.C18.emitted_vector_is_received_reachable', 'Ndn.C18.timer_emits_decodable_reachable',
+    'Ndn.C18.local_vector_received_reachable', 'Ndn.C18.reachable_loc_ne_nil',
     'Ndn.C18.encodeVector_reachable_fails_only_oversize',
 ]
 PARTIAL = {}
